@@ -61,7 +61,7 @@ PROBES = ['expected-read', 'expected-write', 'not-writable-buffer-full', 'remove
           'fault:fd_reuse', 'fd-reuse-of-registered-closed', 'fault:peer_close', 'fault:poll_eintr', 'hup-disconnect-accepted', 'late-discard',
           'grace-iteration', 'pollers-compared', 'cfg:Select', 'cfg:Poll', 'cfg:EPoll']
 TIERS = {
-    'quick': dict(runs=16000, wall=35, chunk=50, cfg=dict(max_ops=16)),
+    'quick': dict(runs=16000, wall=30, chunk=25, cfg=dict(max_ops=16)),
     'thorough': dict(runs=400000, wall=600, chunk=200, cfg=dict(max_ops=40)),
 }
 
@@ -193,16 +193,16 @@ def run_history(ctx, plan, P, avoid_close):
         kind, i, si, peer_too = op
         d = slots[i]
         ctx.log('op', no, kind, i, si)
+        if kind == 'late_discard':
+            dead = [x for x in descs if x['state'] == 'closed' and x['was_registered'] and not x['discarded']]
+            if dead:
+                x = dead[-1]
+                tr('discard(%s) - the descriptor was closed earlier without discard', dname(x))
+                ctx.stat('late-discard')
+                poller.discard(x['a'])
+                x['discarded'] = True
+                return
         if d is None:
-            if kind == 'late_discard':
-                dead = [x for x in descs if x['state'] == 'closed' and x['was_registered'] and not x['discarded']]
-                if dead:
-                    x = dead[-1]
-                    tr('discard(%s) - the descriptor was closed earlier without discard', dname(x))
-                    ctx.stat('late-discard')
-                    poller.discard(x['a'])
-                    x['discarded'] = True
-                    return
             open_pair(i)
             return
         a, b = d['a'], d['b']
